@@ -64,6 +64,14 @@ Theorem C10_knearest : forall ds k out,
 Proof. exact knn_legal_sound. Qed.
 Print Assumptions C10_knearest.
 
+(* ... and the question always has such an answer: for every reachable state, query point and k <= n some
+   outcome is accepted (so the check above is never vacuous and never forces a refusal) *)
+Theorem C10_knearest_exists : forall c ops q k,
+  let s := e_final c (e_init c) ops in
+  (k <= e_n s)%nat -> exists out, knn_legal (distances c (e_abs s) q) k out = true.
+Proof. exact exp_knearest_exists. Qed.
+Print Assumptions C10_knearest_exists.
+
 Theorem C10_knearest_distance : forall c (m : amap) q a,
   NoDup (akeys m) -> forall p, In (a, p) m ->
   dist_of (distances c m q) a = dist2 (ec_torus c) (ec_bounds c) p q.
@@ -88,6 +96,31 @@ Theorem C10_exp_torus_accepts : forall c ops a p,
   snd (estep c (e_final c (e_init c) ops) (ESet a p)) = Some (Ok []).
 Proof. exact exp_torus_accepts. Qed.
 Print Assumptions C10_exp_torus_accepts.
+
+(* END TO END: the radius query issued after ANY history (any capacity, growth, compaction) returns exactly the
+   agents whose last assigned (wrapped) position is within the radius, each with that distance *)
+Theorem C10_exp_radius_end_to_end : forall c ops q r a d,
+  let s := e_final c (e_init c) ops in
+  snd (estep c s (ERadius q r)) = snd (espec_step c (e_abs s) (ERadius q r)) /\
+  (In (a, d) (in_radius c (e_abs s) q r) <->
+   exists p, fold_left (e_track c a) ops None = Some p /\
+             d = dist2 (ec_torus c) (ec_bounds c) p q /\ 0 <= r /\ d <= r * r).
+Proof. exact exp_radius_end_to_end. Qed.
+Print Assumptions C10_exp_radius_end_to_end.
+
+(* END TO END: a k-nearest outcome accepted after ANY history has k distinct agents, each reported with the distance
+   of its last assigned position, none farther than an agent of the space that was left out *)
+Theorem C10_exp_knearest_end_to_end : forall c ops q k out,
+  let s := e_final c (e_init c) ops in
+  knn_legal (distances c (e_abs s) q) k out = true ->
+  length out = k /\ NoDup out /\
+  forall a, In a out ->
+    exists p, fold_left (e_track c a) ops None = Some p /\
+      dist_of (distances c (e_abs s) q) a = dist2 (ec_torus c) (ec_bounds c) p q /\
+      forall b pb, fold_left (e_track c b) ops None = Some pb -> ~ In b out ->
+        dist2 (ec_torus c) (ec_bounds c) p q <= dist2 (ec_torus c) (ec_bounds c) pb q.
+Proof. exact exp_knearest_end_to_end. Qed.
+Print Assumptions C10_exp_knearest_end_to_end.
 
 (* ================= legacy mesa.space.ContinuousSpace ================= *)
 
@@ -121,6 +154,18 @@ Theorem C10_legacy_radius_exact : forall c (m : amap) q r ic a,
             (ic = true \/ 0 < dist2 (lc_torus c) (lc_bounds c) p q).
 Proof. exact legacy_neighbors_exact. Qed.
 Print Assumptions C10_legacy_radius_exact.
+
+(* END TO END: get_neighbors issued after ANY history (cache absent, freshly built, or built earlier and patched by
+   moves since) returns exactly the agents whose last assigned (wrapped) position is within the radius *)
+Theorem C10_legacy_neighbors_end_to_end : forall c ops q r ic a,
+  let s := l_final c l_init ops in
+  snd (lstep c s (LNeighbors q r ic)) = snd (lspec_step c (l_pos s) (LNeighbors q r ic)) /\
+  (In a (spec_neighbors c (l_pos s) q r ic) <->
+   exists p, fold_left (l_track c a) ops None = Some p /\
+             dist2 (lc_torus c) (lc_bounds c) p q <= r * r /\
+             (ic = true \/ 0 < dist2 (lc_torus c) (lc_bounds c) p q)).
+Proof. exact legacy_neighbors_end_to_end. Qed.
+Print Assumptions C10_legacy_neighbors_end_to_end.
 
 Theorem C10_legacy_torus_in_bounds : forall c ops a p,
   bounds_ok (lc_bounds c) = true ->
